@@ -36,6 +36,18 @@ def gen_struct(rng):
         # a single literal: it must denote the intended number in every convention (value compared with the canonical digits)
         form = rng.randrange(3)
         big = rng.choice(NUMS + ['1234.5', '1250000', '2000', '999999.999', '1000.001', '123456789.5'])
+        r2 = rng.random()
+        if r2 < 0.25:
+            # a sign written directly in front of the literal, also in front of a zero whole part
+            small = rng.choice(['0.5', '0.25', '0.001', '0.75', '1.5', '12', '1234.5', '0.05'])
+            if form == 0:
+                return 'literal:number', [('n', small, '-')]
+            if form == 1:
+                return 'literal:percent', [('p', small, '-')]
+            return 'literal:money', [('n', small, '-'), rng.choice(codes)]
+        if r2 < 0.4:
+            # a magnitude suffix behind a literal with thousands groups
+            return 'literal:number', [('n', rng.choice(['1500', '2000', '1200', '25000', '1500.5', '1234567']), '', rng.choice('kM'))]
         if form == 0:
             return 'literal:number', [N(big)]
         if form == 1:
@@ -91,6 +103,10 @@ def gen_struct(rng):
         return 'unit-ratio', [N(x), a, '/', N(y), b]
     if k < 0.85:
         form = rng.randrange(3)
+        if rng.random() < 0.25:
+            # a name that contains a number (a fraction, a number with thousands groups)
+            nm = [rng.choice(['vat', 'top', 'rate']), N(rng.choice(['7.5', '1000', '2.5', '12', '1234.5']))]
+            return 'variable-with-a-number-in-its-name', nm + ['=', N(x), '\n', N(y), '*'] + nm
         if form == 0:
             return 'variable', ['zq', '=', N(x), '\n', 'zq', '*', N(y)]
         if form == 1:
@@ -114,10 +130,10 @@ def render(items, sep, grouped, pct_suffix=True):
                 cur.append({'sym-pre': symbol + lit, 'sym-post': lit + symbol, 'sym-post-sp': lit + ' ' + symbol, 'k-code': lit + 'k ' + it[3],
                             'k-sym': lit + 'k ' + symbol, 'pre-k': symbol + lit + 'k', 'M-code': lit + 'M ' + it[3]}[it[2]])
             elif it[0] == 'n':
-                lit = render_literal(it[1], sep, grouped)
-                cur.append((it[2] if len(it) > 2 else '') + lit)
+                lit = render_literal(it[1], sep, grouped or len(it) > 3)
+                cur.append((it[2] if len(it) > 2 else '') + lit + (it[3] if len(it) > 3 else ''))
             else:
-                lit = render_literal(it[1], sep, grouped)
+                lit = (it[2] if len(it) > 2 else '') + render_literal(it[1], sep, grouped)
                 cur.append((lit + '%') if pct_suffix else ('%' + lit))
         else:
             cur.append(it)
@@ -267,6 +283,10 @@ def run_shard(ctx):
             lit_problem = None
             if cls.startswith('literal:'):
                 want = float(items[0][1])
+                if len(items[0]) > 2 and items[0][2] == '-':
+                    want = -want
+                if len(items[0]) > 3:
+                    want *= {'k': 1e3, 'M': 1e6}[items[0][3]]
                 for s_, slot in ((s1, a), (s2, b)):
                     kk = mon.kind(slot)
                     if kk != cls.split(':')[1] or mon.fval(slot) != want or (kk == 'money' and slot['v']['code'].lower() != items[1].lower()):
